@@ -331,8 +331,9 @@ def simplifications(case: Case):
             yield Case(case.ctx, case.hkey, "implicit", case.sing, case.plur, nf)
     if case.hkey != "none":
         yield Case(case.ctx, "none", case.plural, case.sing, case.plur, nf)
+        order = list(case.headers)  # strictly simpler headers only (well-founded: no cycles)
         for hk in ("x", "n", "num"):
-            if hk in case.headers and hk != case.hkey:
+            if hk in case.headers and order.index(hk) < order.index(case.hkey):
                 yield Case(case.ctx, hk, case.plural, case.sing, case.plur, nf)
     for i in range(len(case.sing)):
         yield Case(case.ctx, case.hkey, case.plural, case.sing[:i] + case.sing[i + 1:], case.plur, nf)
